@@ -71,6 +71,8 @@ pub enum Act {
     MuxClose { c: usize, ans: CloseAns },
     /// dial P1 with an explicit address that carries the /p2p suffix of ANOTHER peer (P2)
     DialSfx,
+    /// dial P1 "as a listener" (DialOpts::override_role, hole-punch style) with a PeerCondition
+    DialOver { cond: u8 },
 }
 
 #[derive(Clone, Copy, Debug, PartialEq, Eq, Serialize, Deserialize)]
@@ -153,6 +155,17 @@ impl Subject for Probe {
         Probe::new(0, log, cfg.deny)
     }
 }
+/// the probe wrapped in an enabled `behaviour::toggle::Toggle`
+impl HasProbe for libp2p_swarm::behaviour::toggle::Toggle<Probe> {
+    fn probe(&mut self) -> &mut Probe {
+        self.as_mut().expect("enabled")
+    }
+}
+impl Subject for libp2p_swarm::behaviour::toggle::Toggle<Probe> {
+    fn make(log: Log, cfg: &LifeCfg) -> Self {
+        Some(Probe::new(0, log, cfg.deny)).into()
+    }
+}
 
 fn is_term(s: &str) -> bool {
     s == "Est" || s.starts_with("OutErr") || s.starts_with("InErr")
@@ -189,6 +202,8 @@ where
     /// full log kept for the composition oracle
     full_log: Vec<LogEv>,
     limit_hit: bool,
+    /// the reference (events folded so far) is exact: nothing was runnable when the action began
+    quiescent_ref: bool,
 }
 
 const HORIZON: u64 = 2000;
@@ -205,7 +220,7 @@ where
         let probe = B::make(log.clone(), &cfg);
         let scfg = SysCfg { exec: if cfg.local_exec { Exec::Local } else { Exec::Harness }, explore_schedule: cfg.explore_schedule, ..Default::default() };
         let sys = SwarmSys::new(probe, log, scfg);
-        let mut s = Sys { cfg, sys, conns: vec![], sw_seq: vec![], fs_seq: vec![], listener_up: false, drained: false, violation: None, att_owner: vec![], pending_in_cid: Default::default(), pending_out_pos: vec![], horizon_hits: 0, mismatch_resolved: false, forbidden: Default::default(), forbid_count: 0, doomed: vec![], notified: vec![], notify_seq: 0, full_log: vec![], limit_hit: false };
+        let mut s = Sys { cfg, sys, conns: vec![], sw_seq: vec![], fs_seq: vec![], listener_up: false, drained: false, violation: None, att_owner: vec![], pending_in_cid: Default::default(), pending_out_pos: vec![], horizon_hits: 0, mismatch_resolved: false, forbidden: Default::default(), forbid_count: 0, doomed: vec![], notified: vec![], notify_seq: 0, full_log: vec![], limit_hit: false, quiescent_ref: true };
         s.ensure_listener();
         let sched = std::mem::replace(&mut s.sys.explore_schedule, false);
         // start states: 0 = initial, 1 = [P1], 2 = [P1, P1], 3 = [P1, P2] already established
@@ -690,6 +705,12 @@ where
             if self.cfg.which == Which::C05 {
                 v.push(Act::DialSfx);
             }
+            if !red || matches!(self.cfg.which, Which::C02 | Which::C01) {
+                v.push(Act::DialOver { cond: 0 });
+                if !red {
+                    v.push(Act::DialOver { cond: 2 });
+                }
+            }
             v.push(Act::Incoming);
         }
         {
@@ -833,6 +854,7 @@ where
 
     /// perform the action on the real Swarm / environment (no scheduling)
     pub fn apply(&mut self, act: &Act) {
+        self.quiescent_ref = !self.sys.has_runnable();
         // bring the reference up to date first (attribution of attempts needs the callbacks
         // logged so far)
         self.fold();
@@ -842,7 +864,28 @@ where
                 let i = self.conn(opts.connection_id());
                 self.conns[i].out = true;
                 self.conns[i].expected = Some(*p);
-                if let Err(e) = self.sys.swarm.dial(opts) {
+                let dialing = self.conns.iter().enumerate().any(|(j, c)| j != i && c.out && c.expected == Some(*p) && self.pending(c));
+                let connected = !self.live_of(*p).is_empty();
+                let holds = match cond {
+                    0 => true,
+                    1 => !connected,
+                    2 => !dialing,
+                    _ => !connected && !dialing,
+                };
+                let r = self.sys.swarm.dial(opts);
+                // the condition is judged at quiescent points only (the reference is exact there)
+                {
+                    match &r {
+                        Ok(()) if !holds && self.quiescent_ref => {
+                            self.violation.get_or_insert(format!("condition-ignored :: dial with condition {cond} accepted although connected={connected} dialing={dialing}"));
+                        }
+                        Err(libp2p_swarm::DialError::DialPeerConditionFalse(_)) if holds && self.quiescent_ref => {
+                            self.violation.get_or_insert(format!("condition-false-positive :: dial with condition {cond} rejected although connected={connected} dialing={dialing}"));
+                        }
+                        _ => {}
+                    }
+                }
+                if let Err(e) = r {
                     self.conns[i].sync_err = Some(dial_err_class(&e));
                 }
             }
@@ -851,6 +894,30 @@ where
                 let i = self.conn(opts.connection_id());
                 self.conns[i].out = true;
                 if let Err(e) = self.sys.swarm.dial(opts) {
+                    self.conns[i].sync_err = Some(dial_err_class(&e));
+                }
+            }
+            Act::DialOver { cond } => {
+                let opts = DialOpts::peer_id(peer(1)).addresses(vec![a(13)]).condition(Self::cond(*cond)).override_role().build();
+                let i = self.conn(opts.connection_id());
+                self.conns[i].out = true;
+                self.conns[i].expected = Some(1);
+                // reference for the condition: NotDialing is false while any outgoing dial for P1
+                // (role-overridden or not) is pending
+                let dialing = self.conns.iter().enumerate().any(|(j, c)| j != i && c.out && c.expected == Some(1) && self.pending(c));
+                let r = self.sys.swarm.dial(opts);
+                match (&r, *cond == 2 && dialing) {
+                    (Ok(()), true) => {
+                        self.violation.get_or_insert("condition-ignored :: dial with PeerCondition::NotDialing accepted while another dial to the peer is pending".into());
+                    }
+                    (Err(e), false) => {
+                        if matches!(e, libp2p_swarm::DialError::DialPeerConditionFalse(_)) {
+                            self.violation.get_or_insert("condition-false-positive :: dial rejected with DialPeerConditionFalse although the condition holds".into());
+                        }
+                    }
+                    _ => {}
+                }
+                if let Err(e) = r {
                     self.conns[i].sync_err = Some(dial_err_class(&e));
                 }
             }
@@ -1516,7 +1583,16 @@ pub fn run_c06(ctx: &Ctx) -> Outcome {
         }
     }
     let _ = pname;
-    run_generic::<Probe>(ctx, Which::C06, cfgs, ctx.tier.pick(4, 5), (ctx.tier.pick(3, 4), ctx.tier.pick(1, 2)))
+    if let Some(case) = &ctx.replay {
+        let toggled = case["cfg"]["variant"] == 77;
+        return if toggled { run_generic::<libp2p_swarm::behaviour::toggle::Toggle<Probe>>(ctx, Which::C06, vec![], 0, (0, 0)) } else { run_generic::<Probe>(ctx, Which::C06, vec![], 0, (0, 0)) };
+    }
+    let mut o = run_generic::<Probe>(ctx, Which::C06, cfgs.clone(), ctx.tier.pick(4, 5), (ctx.tier.pick(3, 4), ctx.tier.pick(1, 2)));
+    // the same denials issued from inside an enabled Toggle<_> wrapper (variant 77 marks the
+    // wrapper in replay files)
+    let toggled: Vec<LifeCfg> = cfgs.into_iter().map(|mut c| { c.variant = 77; c }).collect();
+    o.merge(run_generic::<libp2p_swarm::behaviour::toggle::Toggle<Probe>>(ctx, Which::C06, toggled, ctx.tier.pick(3, 4), (ctx.tier.pick(2, 3), 1)));
+    o
 }
 
 
